@@ -323,7 +323,15 @@ fn draw_setup(w: &mut World) -> Setup {
             let at = 1 + w.draws.draw(&format!("setup/clock_jump#{j}/at"), p.crash_horizon.max(1));
             let k = w.draws.weighted(&format!("setup/clock_jump#{j}/kind"), &p.clock_classes);
             let delta: i128 = match k {
-                0 => (1 + w.draws.draw(&format!("setup/clock_jump#{j}/v"), 100) as i128) * SEC as i128,
+                0 => {
+                    // forwards: seconds, or (one in four) 73+ hours - enough to undo the 72 h backwards step across a reboot
+                    let v = w.draws.draw(&format!("setup/clock_jump#{j}/v"), 100) as i128;
+                    if v % 4 == 3 {
+                        (73 + v) * 3600 * SEC as i128
+                    } else {
+                        (v + 1) * SEC as i128
+                    }
+                }
                 1 => -((1 + w.draws.draw(&format!("setup/clock_jump#{j}/v"), 1000) as i128) * 3600 * SEC as i128),
                 2 => -(1_700_000_000i128 + 86400 * 365 * 3) * SEC as i128,
                 3 => 1 + w.draws.draw(&format!("setup/clock_jump#{j}/v"), 999) as i128,
